@@ -796,6 +796,39 @@ func c18FileModes(r *mon.Run) {
 			}
 		}
 	}
+	if r.Thorough() {
+		c18FchmodFault(r, self)
+	}
+}
+
+// c18FchmodFault (thorough tier): the same child under strace with every fchmod failing. WriteToFile(force=true) must then
+// return an error and must not have written the key into a file whose mode it could not tighten.
+func c18FchmodFault(r *mon.Run, self string) {
+	if _, err := exec.LookPath("strace"); err != nil {
+		r.Set("fchmod_fault_injection", "strace not available")
+		return
+	}
+	cmd := exec.Command("strace", "-f", "-qq", "-o", "/dev/null", "-e", "trace=fchmod", "-e", "inject=fchmod:error=EPERM", self, "c18child", "022")
+	cmd.Env = append(os.Environ(), "C18_FCHMOD_FAILS=1")
+	out, err := cmd.CombinedOutput()
+	if err != nil {
+		r.Set("fchmod_fault_injection", "strace run failed: "+err.Error()+" "+tail(string(out), 300))
+		return
+	}
+	n := 0
+	for _, line := range strings.Split(string(out), "\n") {
+		f := strings.SplitN(line, "\t", 3)
+		if len(f) < 3 || !strings.Contains(f[1], "force=true") {
+			continue
+		}
+		n++
+		r.Distinct("filemode-fchmod-fault", f[1])
+		r.Eval("filemode-fchmod-fault", map[string]string{"OK": "accept", "ERR": "reject", "BAD": "other"}[f[0]])
+		if f[0] == "BAD" || (f[0] == "ERR" && strings.Contains(f[2], "key_in_file=true") && !strings.Contains(f[2], "mode 600")) {
+			r.Violation("C18/private-key-written-although-fchmod-failed", "with fchmod failing, the private key ended up in a file with group/other permission bits ("+f[1]+"): "+f[2], map[string]any{"case": f[1], "detail": f[2]})
+		}
+	}
+	r.Set("fchmod_fault_injection", fmt.Sprintf("%d overwrite cases with fchmod failing (strace inject)", n))
 }
 
 // C18Child is the entry point of the file-mode child process.
